@@ -257,6 +257,7 @@ MIRI_PLAN = {
             ("x86_64", 0, 800, "-Ctarget-feature=+avx2", "")],
     "C08": [("aarch64", 48, 1200, "", ""), ("s390x", 32, 800, "", "")],
     "C10": [("aarch64", 32, 800, "", ""), ("i686", 0, 400, "", "")],
+    "C13": [("aarch64", 48, 800, "", "")],
     "C14": [("i686", 96, 1600, "", ""), ("s390x", 48, 1600, "", ""), ("aarch64", 0, 1600, "", "")],
     "C15": [("x86_64", 128, 4096, "", "-Zmiri-preemption-rate=0.1"),
             ("aarch64", 0, 2048, "", "-Zmiri-preemption-rate=0.1"),
